@@ -353,7 +353,29 @@ def run_one(case, tally):
     return default_run_one(sys.modules[__name__], case, tally)
 
 
+def _gen_nonreading(rng, tier):
+    """A keep-alive client that stops reading: the response is complete as far as the application is concerned, part of it is still in the
+    server's write buffer.  The idle timeout applies all the same, and a close the server has decided on is not held up for ever by a
+    client that takes nothing: the transport is closed (and the handler gone) within a few keep_alive_timeouts."""
+    for i in range(20 if tier == "quick" else 400):
+        T = rng.choice([1, 5])
+        tag = 4400000 + i
+        size = rng.choice([10, 3000, 40000])  # (fits the write buffer: the application is done, the connection idle)
+        by_tag = {str(tag): [["recv_until_end"], ["respond", 200, [(b"x-tag", b"%d" % tag)], b"z" * size]]}
+        how = rng.choice(["pause_before_request", "pause_after_response"])
+        req = _req(tag)
+        if how == "pause_before_request":
+            client = [["pause"], ["feed", req], ["settle"], ["advance", 6 * T], ["settle"]]
+        else:
+            client = [["feed", req], ["settle"], ["pause"], ["feed", _req(tag)], ["settle"], ["advance", 6 * T], ["settle"]]
+        yield {"family": "nonreading." + how, "backends": ["asyncio", "trio"], "config": {"keep_alive_timeout": T, "server_names": ["h.example", "ws.example"]},
+               "conn": {"write_buffer": 65536},
+               "apps": {"default": _app_delay(0, 0), "by_tag": by_tag}, "client": client,
+               "truth": {"T": T, "marks": [], "fault": None, "h2": False, "nonreading": True}, "sched": {"seed": rng.randrange(1 << 30)}, "horizon": 400.0}
+
+
 def gen(rng, tier):
+    yield from _gen_nonreading(rng, tier)
     for rep in range(2 if tier == "quick" else 10):
         for be in ("asyncio", "trio"):
             yield {"family": "real-census", "tierb": True, "backend": be, "count": 60 if tier == "quick" else 200, "tag": 660000 + rng.randrange(100000), "rep": rep}
@@ -412,7 +434,22 @@ def _resp_end_times_h1(obs):
     return ends
 
 
+def _check_nonreading(case, obs, tally):
+    out = []
+    T = case["truth"]["T"]
+    tally.clause("release")
+    if obs.handler == "exception":
+        out.append({"clause": "release", "sig": "C07.handler-crashed/nonreading", "detail": (obs.handler_exc or "")[-400:]})
+    elif obs.handler != "ok" or obs.closed_at is None:
+        out.append({"clause": "release", "sig": "C07.not-released/h1/client-not-reading", "detail":
+                    "the client stopped reading and went silent; %d keep_alive_timeouts (%s s) later the connection handler is %s, the transport %s, "
+                    "tasks left %r" % (6, T, obs.handler, "closed" if obs.closed_at is not None else "still open", obs.tasks_left)})
+    return out
+
+
 def check(case, obs, tally):
+    if case["truth"].get("nonreading"):
+        return _check_nonreading(case, obs, tally)
     out = []
     tr = case["truth"]
     T = tr["T"]
